@@ -6,6 +6,7 @@ import (
 	"strings"
 
 	"verif/checker/absint"
+	"verif/checker/core"
 )
 
 func init() {
@@ -66,7 +67,20 @@ func runC39(c *Ctx) {
 		dims[10].Domain = append(dims[10].Domain, absint.IntVal(2, intT))
 	}
 	watched := func(p string) bool { return strings.HasPrefix(p, "$recv.configuration.") }
-	t := absint.Tabulate(absint.Config{P: c.P, Dims: dims, WatchStore: watched,
+	// unexported package-level predicates of the root package (e.g. an extracted certificatesEqual(current, updated) bool)
+	// are interpreted in place with their parameters bound to the arguments
+	helper := func(fn *types.Func) bool {
+		if fn.Pkg() == nil || fn.Pkg().Path() != core.ModPath || fn.Exported() {
+			return false
+		}
+		sig, ok := fn.Type().(*types.Signature)
+		if !ok || sig.Recv() != nil || sig.Results().Len() != 1 {
+			return false
+		}
+		b, ok := sig.Results().At(0).Type().Underlying().(*types.Basic)
+		return ok && b.Info()&types.IsBoolean != 0
+	}
+	t := absint.Tabulate(absint.Config{P: c.P, Dims: dims, WatchStore: watched, Inline: helper, Pure: helper,
 		OnCall: func(in *absint.Interp, st *absint.State, call *ast.CallExpr, fn *types.Func, recv absint.Val, args []absint.Val) (absint.Val, bool) {
 			if fn == certEq.Obj {
 				v, _ := st.Dim("certEq")
